@@ -41,6 +41,32 @@ def check(ctx):
   r6(ctx, cls)
   r7(ctx, cls)
   pool_request_paths(ctx)
+  config(ctx)
+
+
+# configured bound -> the pool provider's property it must be read from (SinkProvider(WatermarkPoolSink, ..., min_watermark=, max_watermark=, max_queue_len=))
+CONFIG = {'_min_size': 'min_watermark', '_max_size': 'max_watermark', '_max_queue_size': 'max_queue_len'}
+
+
+def config(ctx):
+  """Each bound the rules reason about is the configured value of its own property."""
+  prog = ctx.prog
+  init = prog.func(WM, 'WatermarkPoolSink.__init__')
+  props = init.params[2] if len(init.params) > 2 else 'sink_properties'
+  got = {}
+  for st in walk_no_nested(init.node):
+    if isinstance(st, ast.Assign):
+      for t in st.targets:
+        if U(t).startswith('self.') and U(t)[5:] in CONFIG:
+          got.setdefault(U(t)[5:], []).append(st.value)
+  for attr, prop in sorted(CONFIG.items()):
+    vals = got.get(attr, [])
+    reads = [a.attr for v in vals for a in ast.walk(v) if isinstance(a, ast.Attribute) and U(a.value) == props]
+    ok = len(vals) == 1 and reads == [prop]
+    rule = 'C07.R4' if attr == '_max_queue_size' else ('C07.R1' if attr == '_max_size' else 'C07.R5')
+    ctx.ob(rule, init, 'self.%s is the configured %s' % (attr, prop), ok, 'self.%s is set from %s' % (attr, [U(v) for v in vals]),
+           'the pool bounds concurrency by max_watermark, keeps min_watermark connections cached and queues up to max_queue_len waiters: each bound must come from its own setting '
+           '(the defaults are all Int.MaxValue / 1, so a mix-up only shows under a non-default configuration)')
 
 
 def r1_r4(ctx, cls):
